@@ -170,3 +170,35 @@ purity_emit!(purity_emit_global, Global, 0, 8, [0u8; 0], 4);
 purity_emit!(purity_emit_ext2, Ext2, 2, 8, [0u8; 0], 4);
 purity_emit!(purity_emit_long_binput, LongBinPut, 1, 8, [0u8; 0], 4);
 purity_emit!(purity_emit_none, None, 0, 4, [0u8; 0], 2);
+
+// ---- no state is carried between generators of different protocols (process-wide caches) -------------------------
+// A protocol-2 generator emits an integer first, then a protocol-0 generator does: the second emission must still be
+// an opcode of protocol 0 (and 7-bit ASCII).  Statics such as `OnceLock` caches live across both calls inside one harness.
+#[kani::proof]
+#[kani::unwind(58)]
+#[kani::stub(std::hash::RandomState::new, rs_conc)]
+#[kani::stub(std::rc::Rc::drop_slow, rc_drop_slow_noop)]
+#[kani::stub(Generator::process_stack_ops, c_pso)]
+fn purity_crossgen_int_p2_then_p0() {
+    let d1: [u8; 2] = kani::any();
+    let d2: [u8; 2] = kani::any();
+    let mut g1 = Generator::new(version_of(2));
+    {
+        let mut u = Unstructured::new(&d1);
+        let mut s = GenerationSource::Arbitrary(&mut u);
+        assert!(g1.emit_and_process(OpcodeKind::BinInt, &mut s).is_ok());
+    }
+    let mut g2 = Generator::new(version_of(0));
+    {
+        let mut u = Unstructured::new(&d2);
+        let mut s = GenerationSource::Arbitrary(&mut u);
+        assert!(g2.emit_and_process(OpcodeKind::Int, &mut s).is_ok());
+    }
+    assert!(g2.output.len() >= 1);
+    let b = g2.output[0];
+    assert!(b == super::ref_table::REF_OPS[super::ref_table::I_INT].code || b == super::ref_table::REF_OPS[super::ref_table::I_LONG].code,
+            "a protocol-0 generator emitted an integer opcode outside protocol 0 after another generator ran (state carried between generators)");
+    kani::cover!(true);
+    std::mem::forget(g1);
+    std::mem::forget(g2);
+}
